@@ -1,4 +1,4 @@
-"""C14 - (Monte-Carlo sentence only) the spatial statistics are the weighted mean / standard deviation of the realisations.
+"""C14 - second sentence here (Monte-Carlo statistics); first sentence (Voronoi weights) in harness/C14_voronoi.py.
 
 The real hvsr_spatial.montecarlo_fn and _statistics run with the random generator replaced by a stub whose normal() returns
 mean + stddev * xi with xi arbitrary symbolic reals (every realisation at once), symbolic generator means / standard deviations
@@ -7,9 +7,9 @@ deviation must be the reliability-weighted estimators of the realisations in the
 linear units, the result is unchanged when all weights are multiplied by a constant, zero generating standard deviations give the
 closed-form weighted (log-)mean, and the draws are taken generator by generator (n_realizations each) from the given generator.
 
-NOT covered: the first sentence of C14 (Voronoi weights = nearest-sensor area fractions, culling, order / translation / scale
-independence): those areas are computed by Qhull (scipy.spatial.Voronoi) and GEOS (shapely) behind FFI and cannot be executed
-symbolically - see DESIGN.md; the claim is for the Monte-Carlo sentence only.
+The first sentence of C14 (Voronoi weights = nearest-sensor area fractions, culling, order / translation / scale
+independence) is decided in harness/C14_voronoi.py: hvsrpy's own geometry code runs symbolically, Qhull and GEOS are
+replaced by their contracts (see there).
 """
 import numpy as np
 import z3
@@ -18,14 +18,14 @@ from symx import loader
 from symx.core import Sym, Ctx, symarray, qval, is_nan
 from symx.report import fl, concretiser
 from harness.pipeline import sqrt_arg
+from harness import C14_voronoi as VOR
 
-FUNCTIONS_Q = ["hvsr_spatial._statistics", "hvsr_spatial.montecarlo_fn"]
-STUBS = ["numpy.random.Generator.normal -> mean + stddev * xi, xi arbitrary symbolic reals (one per draw, in call order)", "scipy.spatial / shapely -> not loaded (recorders)",
+FUNCTIONS_Q = ["hvsr_spatial._statistics", "hvsr_spatial.montecarlo_fn"] + VOR.FUNCTIONS_Q
+STUBS = VOR.STUBS + ["numpy.random.Generator.normal -> mean + stddev * xi, xi arbitrary symbolic reals (one per draw, in call order)",
          "exp/log uninterpreted with log(exp u) = u; sqrt uninterpreted (argument equality decided)"]
-ASSUMPTIONS = ["floats as reals", "weights > 0"]
-OUTSIDE = ["HvsrSpatial.spatial_weights / bounded_voronoi / _cull_points / _voronoi_finite_polygons_2d (Qhull + GEOS): the Voronoi sentence of C14 is not claimed",
-           "the statistical quality of numpy's generator", "more than 3 generators x 3 draws"]
-BOUNDS = {"quick": {"generators": "2-3", "draws": "2"}, "thorough": {"generators": "2-3", "draws": "2-3"}}
+ASSUMPTIONS = ["floats as reals", "weights > 0"] + VOR.ASSUMPTIONS
+OUTSIDE = ["the statistical quality of numpy's generator", "more than 3 generators x 3 draws"] + VOR.OUTSIDE
+BOUNDS = {"quick": {"generators": "2-3", "draws": "2", "voronoi": VOR.BOUNDS["quick"]}, "thorough": {"generators": "2-3", "draws": "2-3", "voronoi": VOR.BOUNDS["thorough"]}}
 INSTANCE_TIMEOUT = {"quick": 200, "thorough": 900}
 COMBOS = [("lognormal", "lognormal"), ("normal", "normal"), ("lognormal", "normal"), ("normal", "lognormal")]
 _L = None
@@ -48,7 +48,11 @@ def instances(tier):
         for r, n in ([(2, 2), (3, 2)] if tier == "quick" else [(2, 2), (3, 2), (2, 3), (3, 3)]):
             out.append({"name": f"mc_{dg}_{ds}_r{r}_n{n}", "func": "run_mc", "kwargs": {"dg": dg, "ds": ds, "r": r, "n": n}})
         out.append({"name": f"zero_std_{dg}_{ds}", "func": "run_zero", "kwargs": {"dg": dg, "ds": ds}})
-    return out
+    return out + VOR.instances(tier)
+
+
+def run_voronoi(rep, tier, **kw):
+    return VOR.run_voronoi(rep, tier, L=L, **kw)
 
 
 class StubRng:
@@ -168,6 +172,8 @@ class _ReplayRng:
 
 
 def replay(spec):
+    if spec.get("kind") == "voronoi":
+        return VOR.replay(spec)
     from hvsrpy import hvsr_spatial as HS
     dg, ds = spec["dg"], spec["ds"]
     if spec["kind"] == "zero":
